@@ -128,3 +128,40 @@ pub fn run_filter_ops(ctx: &Ctx, which: u8, runs: u64) {
         }
     }
 }
+
+/// Run the structured `tdigest_ops` target and report artifacts that decode to a case of the given
+/// property (`which`: 0 = C15, 1 = C16) through that property's own oracle.
+pub fn run_tdigest_ops(ctx: &Ctx, which: u8, runs: u64) {
+    use crate::engine::{guarded_eval, Verdict};
+    use crate::props::{c15, c16, fuzzdecode};
+    use arbitrary::Unstructured;
+    let Some(o) = run_libfuzzer(ctx, "tdigest_ops", runs, 2048) else { return };
+    ctx.add_evaluations(
+        "libfuzzer_tdigest_ops",
+        o.executed,
+        serde_json::json!({"engine": "libFuzzer", "target": "tdigest_ops (bytes decoded into C15/C16 cases)", "executed_units": o.executed, "corpus_seeded_from": "harness/fuzz/seeds/tdigest_ops"}),
+    );
+    ctx.note("libfuzzer_tdigest_ops", o.note.clone());
+    for a in &o.artifacts {
+        let Ok(bytes) = std::fs::read(a) else { continue };
+        let mut u = Unstructured::new(&bytes);
+        let Ok(w) = u.int_in_range(0u8..=1) else { continue };
+        let (sub, case, verdict): (&str, serde_json::Value, Verdict) = match w {
+            0 => match fuzzdecode::c15(&mut u) {
+                Ok(c) => ("shape", serde_json::to_value(&c).unwrap(), guarded_eval(&c15::C15, &c)),
+                Err(_) => continue,
+            },
+            _ => match fuzzdecode::c16(&mut u) {
+                Ok(c) => ("aggregates", serde_json::to_value(&c).unwrap(), guarded_eval(&c16::C16, &c)),
+                Err(_) => continue,
+            },
+        };
+        if let Verdict::Fail { sig, msg } = verdict {
+            if w == which {
+                ctx.handle_fail(sub, &case, &sig, &format!("libFuzzer artifact {:?}: {}", a.file_name().unwrap(), msg), None);
+            } else {
+                ctx.note("libfuzzer_tdigest_ops", format!("artifact {:?} violates the oracle of another property (target index {}): {} — run that property's check", a.file_name().unwrap(), w, sig));
+            }
+        }
+    }
+}
